@@ -186,7 +186,7 @@ PROPS = {
                           'stats_at / is_free probes; validate() must not panic while no tree is offline. Concurrent: the same at the quiescent '
                           'end of every explored schedule. ' + T_RULE),
         'partial': ('exact views (stats, stats_at huge/tree), the per-tree identity fast + hidden = exact, the tree_stats program (no panic, read-only, total = tree counters + reservations) '
-                    'and lower counters at the quiescent end of every interleaving proved; validate(), stats_at(0)/is_free and the tree counters at concurrent ends are carried by the correspondence'),
+                    'validate() and lower counters at the quiescent end of every interleaving proved; stats_at(0)/is_free and the tree counters at concurrent ends are carried by the correspondence'),
         'assumptions': [],
     },
     'C05': {
@@ -224,7 +224,7 @@ PROPS = {
                  'thorough': [seq('mixed', 800, 300), seq('malformed', 200, 300), seq('change', 200, 300), seq('drain', 200, 300), seq('init', 300, 60), seq('zone', 100, 300)]},
         'rule': S_RULE + ' Oracle: no public call (new, get, put, drain, change_tree, stats, tree_stats, stats_at, is_free, validate while online) panics; every call runs under catch_unwind.',
         'partial': ('proved: construction (free-all/allocate-all, every frame count incl. 0; recovery from every weak-invariant state: C05) and every sequential history of '
-                    'get/put/drain/change_tree/stats/tree_stats never panic; carried by the correspondence: validate/stats_at(0)/is_free'),
+                    'get/put/drain/change_tree/stats/tree_stats/validate never panic; carried by the correspondence: stats_at(0)/is_free'),
         'assumptions': ['harness built with overflow-checks on, debug-assertions off (assertions of the release configuration)'],
     },
     'C10': {
